@@ -380,20 +380,22 @@ func Analyze(d Def) Analysis {
 		switch c := NameClass("message", m.Name); {
 		case reservedSet[m.Name] && totalMethods > 0:
 			add(Feature{Key: "reserved-message=" + m.Name, Illegal: true, Hostile: true, aspect: "msgname", svc: -1, meth: -1, msg: i})
-		case c != "":
-			add(Feature{Key: "message-name=" + c, Hostile: true, aspect: "msgname", svc: -1, meth: -1, msg: i})
 		case goTypes[gn]:
 			add(Feature{Key: "message-name=dup-go-name", Hostile: true, aspect: "msgname", svc: -1, meth: -1, msg: i})
+		case c != "":
+			add(Feature{Key: "message-name=" + c, Hostile: true, aspect: "msgname", svc: -1, meth: -1, msg: i})
 		}
 		goTypes[gn] = true
 	}
 	for i, s := range f.Services {
 		gn := GoCamelCase(s.Name)
 		switch c := NameClass("service", s.Name); {
+		case goTypes[gn]:
+			// a service whose Go name equals a message's (or another service's) Go name: this
+			// collision is the root cause whatever else the spelling looks like
+			add(Feature{Key: "service-name=dup-go-name", Hostile: true, aspect: "svcname", svc: i, meth: -1, msg: -1})
 		case c != "":
 			add(Feature{Key: "service-name=" + c, Hostile: true, aspect: "svcname", svc: i, meth: -1, msg: -1})
-		case goTypes[gn]:
-			add(Feature{Key: "service-name=dup-go-name", Hostile: true, aspect: "svcname", svc: i, meth: -1, msg: -1})
 		}
 		goTypes[gn] = true
 	}
